@@ -86,8 +86,12 @@ def strategy(tier):
         state=procgen.proc_state(),
         oneshot=st.booleans(),
         requery_k=st.lists(st.integers(0, 200), min_size=1, max_size=2),
+        # two-fault sequences (first fault at i, second at j > i)
         pairs=st.lists(st.tuples(st.integers(0, 60), st.integers(0, 200),
-                                 st.integers(0, 200)), max_size=12),
+                                 st.integers(0, 200),
+                                 st.sampled_from(["deny+vanish", "zombify+vanish", "zombie+vanish",
+                                                  "zombie+vanish", "deny+vanish"])),
+                       max_size=60),
         iter_attrs=st.sampled_from([None, ["name"], ["name", "cmdline", "memory_maps"],
                                     ["pid", "uids", "open_files", "num_threads"], []]),
     ))
@@ -161,6 +165,9 @@ ALLOWED = {
     "zombify": {"value", "ZombieProcess"},
     "deny": {"value", "AccessDenied"},
     "deny+vanish": {"value", "AccessDenied", "NoSuchProcess"},
+    # a zombie that is reaped (or refused) later in the same call
+    "zombify+vanish": {"value", "ZombieProcess", "NoSuchProcess"},
+    "zombie+vanish": {"value", "ZombieProcess", "NoSuchProcess"},
 }
 
 
@@ -270,26 +277,43 @@ def run_case(case):
                     bump("requery-after-vanish")
 
         # ---- two-fault sequences (deny at i, vanish at j > i)
-        for pi, a, b in case["pairs"]:
-            if meths[pi % len(meths)][0] != mname or len(target_idx) == 0 or N < 2:
+        for pair in case["pairs"]:
+            pi, a, b = pair[0], pair[1], pair[2]
+            pkind = pair[3] if len(pair) > 3 else "deny+vanish"
+            if meths[pi % len(meths)][0] != mname or N < 1:
                 continue
-            i = target_idx[a % len(target_idx)]
-            if i >= N - 1:
+            first, second = pkind.split("+")
+            if first == "deny":
+                if not target_idx:
+                    continue
+                i = target_idx[a % len(target_idx)]
+            elif first == "zombie":
+                i = 0          # the process is a zombie from the start of the call
+            else:
+                i = a % N
+            # the call may make MORE accesses once the first fault changed
+            # its path (error handlers probe the stat file): let j range a
+            # little beyond the fault-free count
+            span = N + 6 - (i + 1)
+            if span <= 0:
                 continue
-            j = i + 1 + (b % (N - 1 - i))
+            j = i + 1 + (b % span)
             k = world.fresh()
             with simk.installed(k):
                 p = psutil.Process(PID)
-                k.arm([simk.Fault(i, "deny", PID, deny_errno(log[i])),
-                       simk.Fault(j, "vanish", PID)])
+                f1 = (simk.Fault(i, "deny", PID, deny_errno(log[i])) if first == "deny"
+                      else simk.Fault(i, "zombify", PID))
+                f2 = (simk.Fault(j, "vanish", PID) if second == "vanish"
+                      else simk.Fault(j, "deny", PID, errno.EACCES))
+                k.arm([f1, f2])
                 val, exc = call(p, fn)
                 k.arm([])
-                cls = check_outcome(mname, "deny+vanish", f"deny at {i}, vanish at {j} of {N}",
-                                    val, exc, base_shape, log[i])
+                cls = check_outcome(mname, pkind, f"{first} at {i}, {second} at {j} (fault-free accesses: {N})",
+                                    val, exc, base_shape, log[min(i, N - 1)])
                 runs += 1
-                bump(f"pair:{cls}")
+                bump(f"pair:{pkind}:{cls}")
                 if cls != "value":
-                    nontrivial.add(f"{mname}|deny+vanish|{log[i]['op']}->{log[j]['op']}|{cls}")
+                    nontrivial.add(f"{mname}|{pkind}|{log[min(i, N - 1)]['op']}|{cls}")
 
     # ---- process_iter(attrs): vanish at any access is swallowed
     k = world.fresh()
@@ -352,7 +376,9 @@ PROP = Property(
           "there, files gone), process zombified before access k, and every access that "
           "pertains to the process refused once with EACCES/EPERM; after a "
           "vanish (k=0 and generated k) all 42 queries are repeated on the "
-          "same object; generated (deny i, vanish j>i) pairs; process_iter"
+          "same object; generated two-fault sequences (deny i, vanish j>i), "
+          "(zombify i, vanish j>i) incl. a zombie from the start that is reaped at j, with j also beyond "
+          "the fault-free access count (error handlers make extra probes); process_iter"
           "(attrs) with vanish/zombify at every access.  evaluations counts "
           "executed calls.  Non-trivial = a (method, fault kind, faulted "
           "access, outcome class) whose outcome differs from the fault-free "
